@@ -2,6 +2,7 @@ package handlers
 
 import (
 	"context"
+	"errors"
 	"fmt"
 	"net/http"
 	"strconv"
@@ -26,8 +27,20 @@ import (
 type SecurityAdapters struct {
 	securityChain *ports.SecurityChain
 	logger        logger.StyledLogger
-	rateLimits    config.ServerRateLimits
-	maxBodySize   int64
+	// rejectionWriters answer refused requests of particular routes in the format the clients
+	// of that route expect (the Anthropic route: Anthropic error objects); keyed by exact path
+	rejectionWriters map[string]func(w http.ResponseWriter, err error, statusCode int)
+	rateLimits       config.ServerRateLimits
+	maxBodySize      int64
+}
+
+// SetRejectionWriter makes refusals of requests to path go through write instead of the
+// plain-text default. Called while routes are registered, before the server starts.
+func (s *SecurityAdapters) SetRejectionWriter(path string, write func(w http.ResponseWriter, err error, statusCode int)) {
+	if s.rejectionWriters == nil {
+		s.rejectionWriters = make(map[string]func(w http.ResponseWriter, err error, statusCode int))
+	}
+	s.rejectionWriters[path] = write
 }
 
 // CreateChainMiddleware creates middleware that applies the full security chain with enhanced logging
@@ -55,7 +68,7 @@ func (s *SecurityAdapters) CreateChainMiddleware() func(http.Handler) http.Handl
 				result, err := s.securityChain.Validate(r.Context(), secReq)
 				if err != nil || !result.Allowed {
 					// Write appropriate error response
-					s.writeRejection(w, result, err)
+					s.writeRejection(w, r, result, err)
 					return
 				}
 			}
@@ -73,21 +86,31 @@ func (s *SecurityAdapters) CreateChainMiddleware() func(http.Handler) http.Handl
 // writeRejection answers a request the security chain refused with the status that tells
 // the client what happened: 429 (with Retry-After) for rate limiting, 413 / 431 for size
 // limits. A blanket 403 would read as "never allowed" and defeats client back-off logic.
-func (s *SecurityAdapters) writeRejection(w http.ResponseWriter, result ports.SecurityResult, err error) {
+func (s *SecurityAdapters) writeRejection(w http.ResponseWriter, r *http.Request, result ports.SecurityResult, err error) {
+	// routes with a format of their own for errors (Anthropic) get their refusals in it
+	write := func(w http.ResponseWriter, message string, statusCode int) {
+		http.Error(w, message, statusCode)
+	}
+	if custom, ok := s.rejectionWriters[r.URL.Path]; ok {
+		write = func(w http.ResponseWriter, message string, statusCode int) {
+			custom(w, errors.New(message), statusCode)
+		}
+	}
+
 	switch {
 	case err != nil:
-		http.Error(w, "Security validation failed", http.StatusForbidden)
+		write(w, "Security validation failed", http.StatusForbidden)
 	case strings.HasPrefix(result.Reason, "Rate limit exceeded"):
 		if result.RetryAfter > 0 {
 			w.Header().Set("Retry-After", strconv.Itoa(result.RetryAfter))
 		}
-		http.Error(w, "Too Many Requests", http.StatusTooManyRequests)
+		write(w, "Too Many Requests", http.StatusTooManyRequests)
 	case strings.HasPrefix(result.Reason, "Request body too large"):
-		http.Error(w, "Request body too large", http.StatusRequestEntityTooLarge)
+		write(w, "Request body too large", http.StatusRequestEntityTooLarge)
 	case strings.HasPrefix(result.Reason, "Request headers too large"):
-		http.Error(w, "Request headers too large", http.StatusRequestHeaderFieldsTooLarge)
+		write(w, "Request headers too large", http.StatusRequestHeaderFieldsTooLarge)
 	default:
-		http.Error(w, "Security validation failed", http.StatusForbidden)
+		write(w, "Security validation failed", http.StatusForbidden)
 	}
 }
 
